@@ -51,7 +51,9 @@ def _finite_theorems_present() -> List[str]:
     txt = open(p).read()
     txt = re.sub(r"/-.*?-/", "", txt, flags=re.S)
     txt = re.sub(r"--.*", "", txt)
-    return [t for t in FINITE_THEOREMS if re.search(r"^\s*theorem\s+" + re.escape(t) + r"\b", txt, flags=re.M)]
+    ns = re.search(r"^namespace\s+(\S+)", txt, flags=re.M)
+    pre = (ns.group(1) + ".") if ns else ""
+    return [pre + t for t in FINITE_THEOREMS if re.search(r"^\s*theorem\s+" + re.escape(t) + r"\b", txt, flags=re.M)]
 
 
 _ft = _finite_theorems_present()
@@ -509,8 +511,8 @@ def gen_channels(rng: np.random.Generator, N: int, cls: str, cross: bool) -> Tup
         x = x.astype(np.float32).astype(np.float64)
         y = None if y is None else y.astype(np.float32).astype(np.float64)
     elif cls == "int":
-        x = np.round(50 * x / (1 + np.abs(x).max() / 1e4)).astype(np.float64)
-        y = None if y is None else np.round(50 * y / (1 + np.abs(y).max() / 1e4)).astype(np.float64)
+        x = np.round(50 * x / (1 + np.abs(x).max() / 1e4)).astype(np.float64) + 0.0          # + 0.0: no negative zeros (integers have none)
+        y = None if y is None else np.round(50 * y / (1 + np.abs(y).max() / 1e4)).astype(np.float64) + 0.0
     return x, y
 
 
